@@ -79,7 +79,7 @@ func (b *Builder) Build() (*DFA, error) {
 		nfa:              b.nfa,
 		config:           b.config,
 		prefilter:        pf,
-		pikevm:           nfa.NewPikeVM(b.nfa),
+		pikevm:           nfa.NewSharedPikeVM(b.nfa),
 		byteClasses:      b.nfa.ByteClasses(),
 		unanchoredStart:  b.nfa.StartUnanchored(),
 		hasWordBoundary:  hasWordBoundary,
